@@ -420,4 +420,156 @@ theorem finalWidths_ok (cols : List Col) (vis : List Record) (ws : List (Col × 
   · exact setWidths_ok cols ws h hinv
   · exact detectWidths_ok cols vis ws h
 
+/-- a table with the same records, header, footer and columns (widths forgotten) whose limits act
+like `t`'s prints what `t` prints -/
+theorem lines_of_same (t u : Tbl) (hw : WidthsFaithful t) (hr : u.records = t.records)
+    (hh : u.header = t.header) (hf : u.footer = t.footer) (hc : u.fmt.cols = t.fmt.cols.map Col.reset)
+    (hl : ∀ tls, mkTableLines (breakFields t.fmt.cols) Option.none t.records = .ok tls →
+      applyLimits u.fmt.limF u.fmt.limL tls t.records.length
+        = applyLimits t.fmt.limF t.fmt.limL tls t.records.length) : lines u = lines t := by
+  rw [hw, lines_eq_linesWith, lines_eq_linesWith]
+  simp only [fresh, hr, hh, hf, hc]
+  apply linesWith_congr
+  intro tls htls
+  have hb : breakFields (t.fmt.cols.map Col.reset) = breakFields t.fmt.cols :=
+    breakFields_map_width t.fmt.cols (fun _ => Option.none)
+  rw [hb] at htls
+  exact hl tls htls
+
+/-- printing changes nothing that a later printing could see -/
+theorem lines_after_render {t t' : Tbl} {ls : List Line} (h : render t = .ok (t', ls)) : lines t' = lines t := by
+  rw [lines_of_render (render_idem h), lines_of_render h]
+
+/-- interleaved iterators: each one yields the lines of its own table as it was at the beginning -/
+theorem startIters_lines (tables0 tables : List Tbl) (iters order : List Nat)
+    (acc res : List (Nat × List Line))
+    (hlen : tables.length = tables0.length)
+    (hsame : ∀ (k : Nat) (t t0 : Tbl), tables[k]? = some t → tables0[k]? = some t0 → lines t = lines t0)
+    (hacc : ∀ p ∈ acc, ∃ ti t0, iters[p.1]? = some ti ∧ tables0[ti]? = some t0 ∧ lines t0 = .ok p.2)
+    (h : startIters tables iters order acc = .ok res) :
+    ∀ p ∈ res, ∃ ti t0, iters[p.1]? = some ti ∧ tables0[ti]? = some t0 ∧ lines t0 = .ok p.2 := by
+  induction order generalizing tables acc with
+  | nil => simp [startIters] at h; subst h; exact hacc
+  | cons i rest ih =>
+    unfold startIters at h
+    cases hi : iters[i]? with
+    | none => simp [hi] at h
+    | some ti =>
+      simp only [hi] at h
+      cases ht : tables[ti]? with
+      | none => simp [ht] at h
+      | some t =>
+        simp only [ht] at h
+        cases hr : render t with
+        | error e => simp [hr] at h
+        | ok pr =>
+          obtain ⟨t', ls⟩ := pr
+          simp only [hr] at h
+          have hti : ti < tables0.length := by
+            have := (List.getElem?_eq_some_iff.mp ht).1
+            omega
+          obtain ⟨t0, ht0⟩ : ∃ t0, tables0[ti]? = some t0 := ⟨tables0[ti], by simp [hti]⟩
+          have hl0 : lines t0 = .ok ls := by rw [← hsame ti t t0 ht ht0]; exact lines_of_render hr
+          apply ih (tables.set ti t') (acc ++ [(i, ls)]) (by simp [hlen]) ?_ ?_ h
+          · intro k a a0 hk hk0
+            by_cases hkt : k = ti
+            · subst hkt
+              have hlt : k < tables.length := by omega
+              rw [List.getElem?_set_self hlt] at hk
+              cases hk
+              rw [ht0] at hk0; cases hk0
+              rw [lines_after_render hr]
+              exact hsame _ t _ ht ht0
+            · rw [List.getElem?_set_ne (fun e => hkt e.symm)] at hk
+              exact hsame k a a0 hk hk0
+          · intro p hp
+            rcases List.mem_append.mp hp with hp | hp
+            · exact hacc p hp
+            · simp only [List.mem_singleton] at hp
+              subst hp
+              exact ⟨ti, t0, hi, ht0, hl0⟩
+
+/-! ## the state after printing is determined by what was printed -/
+
+theorem replicate_append_inj (d c : Char) (hdc : d ≠ c) (w w' : Nat) (x x' : List Char)
+    (h : List.replicate w d ++ c :: x = List.replicate w' d ++ c :: x') : w = w' ∧ x = x' := by
+  induction w generalizing w' with
+  | zero =>
+    cases w' with
+    | zero => simpa using h
+    | succ k => simp [List.replicate_succ] at h; exact absurd h.1.symm hdc
+  | succ n ih =>
+    cases w' with
+    | zero => simp [List.replicate_succ] at h; exact absurd h.1 hdc
+    | succ k =>
+      simp only [List.replicate_succ, List.cons_append, List.cons.injEq, true_and] at h
+      obtain ⟨h1, h2⟩ := ih k h
+      exact ⟨by omega, h2⟩
+
+theorem borderText_head (ws : List Nat) : ∃ x, borderText ws = Gen.C12.cornerChar :: x := by
+  cases ws <;> exact ⟨_, rfl⟩
+
+/-- the border line tells the widths -/
+theorem borderText_inj (ws ws' : List Nat) (h : borderText ws = borderText ws') : ws = ws' := by
+  have hdc : Gen.C12.dashChar ≠ Gen.C12.cornerChar := by decide
+  induction ws generalizing ws' with
+  | nil =>
+    cases ws' with
+    | nil => rfl
+    | cons w' r' =>
+      obtain ⟨x, hx⟩ := borderText_head r'
+      simp [borderText, hx] at h
+  | cons w r ih =>
+    cases ws' with
+    | nil =>
+      obtain ⟨x, hx⟩ := borderText_head r
+      simp [borderText, hx] at h
+    | cons w' r' =>
+      obtain ⟨x, hx⟩ := borderText_head r
+      obtain ⟨x', hx'⟩ := borderText_head r'
+      simp only [borderText, List.cons.injEq, true_and] at h
+      rw [hx, hx'] at h
+      obtain ⟨h1, h2⟩ := replicate_append_inj _ _ hdc w w' x x' h
+      have : borderText r = borderText r' := by rw [hx, hx', h2]
+      rw [h1, ih r' this]
+
+theorem setWidths_eq_zip (ws : List (Col × Nat)) :
+    setWidths ws = List.zipWith (fun c w => { c with width := some w }) (ws.map (·.1)) (ws.map (·.2)) := by
+  induction ws with
+  | nil => rfl
+  | cons cw cs ih => simp only [setWidths, List.map_cons, List.zipWith_cons_cons] at ih ⊢; rw [ih]
+
+theorem zip_reset (cols : List Col) (widths : List Nat) :
+    List.zipWith (fun c w => { c with width := some w }) (cols.map Col.reset) widths
+      = List.zipWith (fun (c : Col) w => { c with width := some w }) cols widths := by
+  induction cols generalizing widths with
+  | nil => rfl
+  | cons c cs ih =>
+    cases widths with
+    | nil => rfl
+    | cons w ws => simp only [List.map_cons, List.zipWith_cons_cons, ih]; rfl
+
+/-- Two tables with the same records, header and footer and the same columns (widths apart) that
+print the same lines are, after printing, in states with the same columns *including the
+negotiated widths*. -/
+theorem printed_cols_eq {t u t' u' : Tbl} {ls : List Line} (ht : render t = .ok (t', ls))
+    (hu : render u = .ok (u', ls)) (hc : u.fmt.cols = t.fmt.cols.map Col.reset) :
+    u'.fmt.cols = t'.fmt.cols := by
+  obtain ⟨tls, ws, nT, body, R⟩ := render_elim ht
+  obtain ⟨tls2, ws2, nT2, body2, R2⟩ := render_elim hu
+  have h1 := finalWidths_cols _ _ _ R.ws_eq
+  have h2 := finalWidths_cols _ _ _ R2.ws_eq
+  have hb : borderLine ws = borderLine ws2 := by
+    have e1 := R.lines_eq
+    have e2 := R2.lines_eq
+    rw [e1] at e2
+    simp only [List.append_assoc, List.singleton_append, List.cons_append] at e2
+    exact (List.cons.inj e2).1
+  have hw : ws.map (·.2) = ws2.map (·.2) := by
+    simp only [borderLine, Line.mk.injEq, true_and] at hb
+    exact borderText_inj _ _ hb
+  rw [R.state_eq, R2.state_eq]
+  simp only [printed]
+  rw [setWidths_eq_zip, setWidths_eq_zip, h1, h2, hc, ← hw, zip_reset]
+
 end Table
